@@ -189,6 +189,9 @@ def run(ctx):
 
     def replayer(ctx2, ob_, model):
         from .. import replay
+        if any(f in ob_.name for f in ('._check_network', '._check_incoming_pdu', '._process_incoming')):
+            # the receive path: segmentations and end of stream (C03's native search)
+            return replay.run_native('c03.py', {'obligation': ob_.name.split('[')[0]}, timeout=600)
         return replay.run_native('c05.py', {'search': 'histories'}, timeout=600)   # one search serves them all
     ctx.replayers['dulprovider.*'] = replayer
     ctx.replayers['*#inv:*'] = replayer
